@@ -31,7 +31,7 @@ Section Jet.
   Local Open Scope F_scope.
   Local Notation poly := (@poly F).
   Local Notation vfield := (@vfield F).
-  Definition tvec := list F.
+  Local Notation tvec := (list F).   (* a Taylor coefficient: a d-vector *)
 
   Fixpoint zipw {A B C : Type} (g : A -> B -> C) (l1 : list A) (l2 : list B) : list C :=
     match l1, l2 with
@@ -139,45 +139,7 @@ Section Jet.
       end
     end.
 
-  (* ---------------------------------------- polynomial arithmetic (data) *)
-  Fixpoint exps_cmp (a b : list nat) : comparison :=
-    match a, b with
-    | [], [] => Eq
-    | [], _ :: _ => Lt
-    | _ :: _, [] => Gt
-    | x :: a', y :: b' =>
-      match Nat.compare x y with Eq => exps_cmp a' b' | c => c end
-    end.
-
-  (* merge of two (sorted) monomial lists, combining equal exponent vectors and
-     dropping zero coefficients; semantically an addition for ANY two lists *)
-  Fixpoint padd (p : poly) : poly -> poly :=
-    fix aux (q : poly) : poly :=
-      match p, q with
-      | [], _ => q
-      | _, [] => p
-      | (c, e) :: p', (c', e') :: q' =>
-        match exps_cmp e e' with
-        | Lt => (c, e) :: padd p' q
-        | Gt => (c', e') :: aux q'
-        | Eq => let s := c + c' in
-                if feqb s 0 then padd p' q' else (s, e) :: padd p' q'
-        end
-      end.
-
-  Fixpoint eadd (a b : list nat) : list nat :=
-    match a, b with
-    | [], _ => b
-    | _, [] => a
-    | x :: a', y :: b' => (x + y)%nat :: eadd a' b'
-    end.
-  Definition pmul_mono (m : @mono F) (p : poly) : poly :=
-    map (fun m' => (fst m * fst m', eadd (snd m) (snd m'))) p.
-  Definition pmul (p q : poly) : poly :=
-    fold_right (fun m acc => padd (pmul_mono m q) acc) [] p.
-  (* the variable x_i among nvars variables *)
-  Definition pvar (nvars i : nat) : poly :=
-    [(1, map (fun j => if Nat.eqb i j then 1%nat else 0%nat) (seq 0 nvars))].
+  (* polynomial arithmetic on data (padd, pmul, pvar): Base/Series.v *)
 
   (* ---------------------------------------------- jetexpand_ode_via_jvp *)
   (* the tangent handed to jvp for the state variable x_{j,b}: x_{j+1,b} for
